@@ -3,6 +3,10 @@
   Property theorems only.
 -/
 import SplVerif.Model.Format
+import SplVerif.Lemmas.FmtCanon
+import SplVerif.Props.C09
+import SplVerif.Props.C04
+import SplVerif.Props.C03
 
 namespace Spl.C11
 open Spl.Fmt Spl.Feat
@@ -32,5 +36,59 @@ theorem indent_lines (s : List Char) (o : Options) :
 /-- Indenting nothing gives nothing (an empty body stays `{}`). -/
 theorem indent_nil (o : Options) : indent [] o = [] := by
   simp [indent, lines, lines.go]
+
+
+/-! ### canonical form -/
+
+/-- **Layout independence (`layout_independent`).**  Two lexically valid texts whose token sequences have the same
+    types in the same order (types carry identifier spellings, literal values and comment texts) — i.e. two layouts
+    of the same tokens, whatever blanks, tabs, `\n` / `\r\n` / `\r` line ends, literal spellings (`007` vs `7`,
+    `0x0a` vs `0x0A`) they use — get the same derivation from the grammar specification and the same output from the
+    formatter model: the printed text is a function of the token types alone.  No restriction to comment-free
+    texts, no bound on the size. -/
+theorem layout_independent (o : Options) (t1 t2 : List Char) (toks1 toks2 : List Token)
+    (h1 : LexSpec.lex t1 = some toks1) (h2 : LexSpec.lex t2 = some toks2)
+    (hty : toks1.map (·.ty) = toks2.map (·.ty)) :
+    Grammar.parse toks1 = Grammar.parse toks2 ∧
+      ∀ p, fmtProgram o p toks1.toArray = fmtProgram o p toks2.toArray := by
+  have herr : ∀ (t : List Char) (toks : List Token), LexSpec.lex t = some toks → ∀ x ∈ toks, x.errors = [] := by
+    intro t toks h x hx
+    obtain ⟨front, e, rfl, _, hee, hf⟩ := FmtProgram.go_shape _ _ _ _ h
+    rcases List.mem_append.mp hx with hm | hm
+    · exact (hf x hm).2
+    · simp only [List.mem_singleton] at hm; subst hm; exact hee
+  exact ⟨FmtCanon.parse_congr toks1 toks2 hty (herr t1 toks1 h1) (herr t2 toks2 h2),
+    fun p => FmtCanon.fmtProgram_same o p (FmtCanon.sameTy_of_lists hty)⟩
+
+/-- **Idempotence for programs without comments (`format_idempotent_partial`).**  For every lexically and
+    syntactically valid text without comments, every `insertSpaces` and `tabSize`: the text `out` the formatter model
+    prints is itself lexically valid, the grammar specification derives the SAME program from its tokens, the model
+    of `parser::parse` returns that program for it (`C04.parse_conforms`), and formatting it again prints `out`
+    again — so a second `textDocument/formatting` request answers `null` (`second_format_is_null`).
+    PARTIAL with respect to the property only in that texts with comments are not covered by the theorem (they are
+    evaluated on every run: PROPFMTIDEM). -/
+theorem format_idempotent_partial (insertSpaces : Bool) (tabSize : Nat) (text : List Char) (toks : List Token)
+    (p : Program) (h1 : LexSpec.lex text = some toks) (h2 : ∀ t ∈ toks, t.kind ≠ Kind.Comment)
+    (h3 : Grammar.parse toks = some p) :
+    ∃ out ts', fmtProgram (C09.optionsOf insertSpaces tabSize) p toks.toArray = .ok out ∧
+      lex out = .ok ts' ∧ Parse.parse ts' = .ok p ∧
+      fmtProgram (C09.optionsOf insertSpaces tabSize) p ts'.toArray = .ok out := by
+  obtain ⟨out, ts', e1, e2, e3, e4⟩ := C09.format_preserves_tokens_partial insertSpaces tabSize text toks p h1 h2 h3
+  obtain ⟨hp, hf⟩ := layout_independent (C09.optionsOf insertSpaces tabSize) out text ts' toks e2 h1 e4
+  have hparse : Grammar.parse ts' = some p := by rw [hp]; exact h3
+  have hend : ParseConform.EndsWithToken ts'.toArray := C03.lex_ends_with_token out ts' e3
+  exact ⟨out, ts', e1, e3, C04.parse_conforms ts' p hparse hend, by rw [hf p]; exact e1⟩
+
+/-- … hence the request handler answers `null` on the formatted document. -/
+theorem second_format_is_null (insertSpaces : Bool) (tabSize : Nat) (text : List Char) (toks : List Token)
+    (p : Program) (h1 : LexSpec.lex text = some toks) (h2 : ∀ t ∈ toks, t.kind ≠ Kind.Comment)
+    (h3 : Grammar.parse toks = some p) :
+    ∃ out ts', fmtProgram (C09.optionsOf insertSpaces tabSize) p toks.toArray = .ok out ∧ lex out = .ok ts' ∧
+      ∀ d : AnalyzedSource, d.text = out → d.tokens = ts' → d.ast = p → Fmt.format d insertSpaces tabSize = .ok none := by
+  obtain ⟨out, ts', e1, e2, _, e4⟩ := format_idempotent_partial insertSpaces tabSize text toks p h1 h2 h3
+  refine ⟨out, ts', e1, e2, ?_⟩
+  intro d hd ht ha
+  rw [null_iff_unchanged, hd, ht, ha]
+  exact e4
 
 end Spl.C11
